@@ -109,7 +109,7 @@ theorem block_transform_splice (f : Block → TRes) (bs : List Block)
     blockTransform f bs = .ok (addAllSpec [] (bs.flatMap fun b => (spliced (f b)).getD [])) := by
   simp only [blockTransform, splice_ok f bs h, bind, Except.bind]
   obtain ⟨L, hL, hbl⟩ := addMany_inv (bs.flatMap fun b => (spliced (f b)).getD []) {} [] libInv_empty
-  simp only [libraryOf, hL, pure, Except.pure, hbl.blocks]
+  simp only [libraryOfE, hL, pure, Except.pure, hbl.blocks]
   simp
 
 /-- non-vacuity: a stack of two order-sensitive probes (each appends its tag to every entry key) -/
